@@ -385,6 +385,12 @@ func genC08(r *simrt.Rand, tier string) *simrt.Plan {
 		}
 	}
 	ops := g.schema(r.Bool(0.6), types)
+	for i := range ops {
+		// a cache-less field created with an explicit size of 0
+		if ops[i].K == "mkfield" && len(ops[i].I) > 3 && ops[i].I[2] == 2 && r.Bool(0.5) {
+			ops[i].I[3] = 0
+		}
+	}
 	battery := func() []simrt.Op {
 		var qs []simrt.Op
 		for i := range g.fields {
